@@ -276,6 +276,12 @@ def pp(draw, prof, n, redox, need=(), exclude=()):
     # a phase that is also an end-member of a solid solution of the cell would make the split between the two
     # reservoirs indeterminate (phase rule) -> never both
     pool = [m for m in P["minerals"] if m not in exclude]
+    fe_note = []
+    if redox != "inert" and "Fluorite" in pool:
+        # known finding: cxxNameDouble::merge_redox cuts 'Fe(2)' to 'F' and erases the fluoride total whenever a solution
+        # with Fe(2)/Fe(3) totals is read from SOLUTION_RAW / SOLUTION_MODIFY -> no fluoride source next to iron
+        pool.remove("Fluorite")
+        fe_note = ["excluded_fluoride_next_to_iron_valence_totals"]
     if redox != "inert":
         pool += P["minerals_fe"][:2] if redox == "o2" else P["minerals_fe"]
     names = _some(draw, pool, 1, 4)
@@ -288,7 +294,7 @@ def pp(draw, prof, n, redox, need=(), exclude=()):
     else:
         labels_need = []
     L = ["EQUILIBRIUM_PHASES %d" % n]
-    labels = list(labels_need)
+    labels = list(labels_need) + fe_note
     for nm in names:
         si = draw(st.sampled_from([0.0, 0.0, 0.0, None]))
         if si is None:
